@@ -60,6 +60,8 @@ pub fn gen_ctx(u: &mut Chooser) -> Vec<(String, V)> {
         ("any".to_string(), gen_value(u, 2, ValOpts::CORE)),
         // a collection holding NaN: equal to nothing, itself and its own clones included
         ("nl".to_string(), V::List(vec![V::f(f64::NAN), V::Int(1)])),
+        // a longer list that is probed again and again
+        ("big".to_string(), V::List((0..12 + u.below(8)).map(|k| V::Int(k as i64)).collect())),
     ]
 }
 
@@ -72,7 +74,7 @@ pub fn gen_prog(u: &mut Chooser, ctx: &[(String, V)]) -> E {
     let idx = |a: E, i: i64| E::Index(b(a), b(E::Lit(V::Int(i))));
     let mac = |m: Mac, r: E, body: E| E::Macro(m, b(r), "x".into(), vec![body]);
     let x = || E::var("x");
-    match u.below(48) {
+    match u.below(54) {
         0 => add(l(u), lit_l(u)),
         1 => add(l(u), l(u)),
         2 => {
@@ -138,6 +140,14 @@ pub fn gen_prog(u: &mut Chooser, ctx: &[(String, V)]) -> E {
         44 => E::bin(Op::Eq, E::Map(vec![(E::Lit(V::s("k")), E::var("nl"))]), E::Map(vec![(E::Lit(V::s("k")), E::var("nl"))])),
         45 => E::bin(Op::In, E::List(vec![E::var("nl")]), E::List(vec![E::List(vec![E::var("nl")])])),
         46 => E::List(vec![E::bin(Op::Eq, E::var("nl"), E::var("nl")), E::mcall(E::List(vec![E::List(vec![E::var("nl")])]), "contains", vec![E::List(vec![E::var("nl")])])]),
+        // membership in the long list, asked with ints, uints and doubles, once and many times in one execution
+        47 => E::bin(Op::In, E::Lit(V::UInt(7)), E::var("big")),
+        48 => E::Macro(Mac::Map, b(E::List((1..=12).map(|k| E::Lit(V::UInt(k))).collect())), "x".into(), vec![E::bin(Op::In, E::var("x"), E::var("big"))]),
+        49 => E::List(vec![E::bin(Op::In, E::Lit(V::f(3.0)), E::var("big")), E::mcall(E::var("big"), "contains", vec![E::Lit(V::UInt(3))]), E::bin(Op::In, E::Lit(V::Int(3)), E::var("big"))]),
+        // macro bodies that fail part-way through: nothing of the aborted fold stays behind
+        50 => E::Macro(Mac::Map, b(l(u)), "x".into(), vec![E::bin(Op::Div, E::var("x"), E::Lit(V::Int(0)))]),
+        51 => E::Macro(Mac::All, b(E::var("big")), "y".into(), vec![E::bin(Op::Lt, E::bin(Op::Div, E::Lit(V::Int(10)), E::bin(Op::Sub, E::var("y"), E::Lit(V::Int(3)))), E::Lit(V::Int(100)))]),
+        52 => E::List(vec![E::var("x"), E::var("y")]),
         _ => {
             // a random typed program over the same context
             let vars: Vec<Var> = ctx
